@@ -210,7 +210,7 @@ def prepare_replay(art):
 
 def run(chk, tier, jobs, deadline):
     chk.assumptions += ASSUME
-    dl = deadline or (110 if tier == "quick" else 1700)
+    dl = deadline or (420 if tier == "quick" else 1700)
     t_end = time.time() + dl
     root = os.path.join(harnesses.RUN_DIR, "C18-%d" % os.getpid())
     os.makedirs(LOGS, exist_ok=True)
